@@ -2,10 +2,15 @@
 and a well-formed message.
 
 Full product of small variant menus (certificate chain x targets x UI message x signer /
-powHSM message {format, header, length, platform} x public-keys file x root of trust), every
-variant really signed with keys owned by the harness, through the real
+powHSM message {format, header, length and extension bytes, platform} x public-keys file x root
+of trust), every variant really signed with keys owned by the harness, through the real
 ``do_verify_attestation`` of admin/verify_ledger_attestation.py and
 admin/verify_sgx_attestation.py (and, for a sample, through adm_ledger.main / adm_sgx.main).
+All calls of one case happen in one process and name the SAME three file paths, whose contents
+are replaced between calls: every verdict has to be a function of the current contents
+(histories); ordered pairs of variants per file are run explicitly as well.  Boundary byte
+values (ASCII digit, ':', newline, 0x00, 0xff) are placed right after every textual header and
+at the end of every message.
 Oracle: reference predicate of the statement + offset table of docs/attestation.md.
 """
 import argparse
@@ -26,9 +31,8 @@ from ..att import k1, layout as L, sgx as S
 from ..att.ledgergen import LedgerGen, pubkeys_variants, CHAIN_VARIANTS as L_CHAINS
 from ..att.sgxgen import SgxGen, CHAIN_VARIANTS as S_CHAINS
 
-DEFAULT_LEDGER_ROOT_DOC = None       # filled from docs/attestation.md in prepare()
-
 # -- menus (name -> value); the quick tier takes the names listed in Q_* ---------------------
+EDGE_BYTES = [0x30, 0x39, 0x3a, 0x0a, 0x00, 0xff]
 UI_VARIANTS = {
     # name: (header, attested key, length change, class) ; class: ok | foreign | open
     "exact": (L.UI_HEADER, "own", 0, "ok"),
@@ -44,8 +48,12 @@ UI_VARIANTS = {
     "short-1": (L.UI_HEADER, "own", -1, "open"),
     "long+1": (L.UI_HEADER, "own", 1, "open"),
 }
+# "edge-XX": documented header, operator's key, UD value starting with byte XX and iteration
+# ending in byte XX (the bytes next to the header / at the end of the message)
+for _b in EDGE_BYTES:
+    UI_VARIANTS["edge-%02x" % _b] = (L.UI_HEADER, "own", 0, "ok")
 T_UI = ["exact", "other-key", "foreign-prefix", "foreign-lowercase", "foreign-noversion",
-        "version-5.3", "version-6.0", "version-5x4", "short-1"]
+        "version-5.3", "version-6.0", "version-5x4"]
 Q_UI = ["exact", "other-key", "foreign-prefix", "foreign-lowercase", "version-5.3", "version-6.0"]
 
 SIGNER_HEADERS = {
@@ -61,29 +69,36 @@ Q_SIGNER_HEADERS = {"legacy": ["ok", "foreign", "version-6.0"],
                     "current": ["ok", "foreign", "version-5.9"]}
 T_SIGNER_HEADERS = {"legacy": ["ok", "foreign", "foreign-ui", "version-6.0"],
                     "current": ["ok", "foreign", "foreign-colon", "version-5.9", "version-6.0"]}
-LENGTHS = [0, -1, 1, 32]
+# length change and the bytes the extension ends with
+LENGTHS = {"0": (0, None), "-1": (-1, None), "+1:0a": (1, b"\x0a"), "+1:37": (1, b"7"),
+           "+1:ff": (1, b"\xff"), "+2:ff0a": (2, b"\xff\x0a"), "+32": (32, None),
+           "+1:00": (1, b"\x00"), "+1:0d": (1, b"\x0d"), "+1:20": (1, b" "), "+1:3a": (1, b":"),
+           "+32:0a": (32, b"\x0a"), "-32": (-32, None)}
+Q_LENGTHS = list(LENGTHS)[:7]
+T_LENGTHS = list(LENGTHS)[:8] + ["+32:0a"]    # the rest: boundary cases and star sample
+E_LENGTHS = ["0", "-1", "+1:0a", "+1:00", "+32:0a"]         # for the boundary-value cases
 PLATFORMS = {"led": b"led", "sgx": b"sgx", "xyz": b"xyz", "nonascii": b"\xff\xfe\x80"}
 Q_PLATFORMS = {"ledger": ["led", "xyz"], "sgx": ["sgx", "xyz"]}
 
 L_TARGETS = ["both", "no-ui", "no-signer", "both-reversed", "ui-untargeted", "signer-untargeted"]
 Q_L_TARGETS = L_TARGETS[:3]
-T_L_TARGETS = L_TARGETS[:5]
+T_L_TARGETS = L_TARGETS[:4]
 S_TARGETS = ["quote", "none", "no-quote-element", "attestation-only"]
 Q_S_TARGETS = S_TARGETS[:3]
 Q_L_CHAINS = L_CHAINS[:5]
 Q_S_CHAINS = S_CHAINS[:8]
 Q_PUBKEYS = ["same", "mixed-shuffled", "one-different", "btc-different", "one-missing",
-             "one-extra", "renamed-same-order", "paths-swapped", "key-not-on-curve"]
-T_PUBKEYS = Q_PUBKEYS + ["btc-missing", "renamed-order-changed", "btc-path-other-spelling"]
-Q_S_PUBKEYS = ["same", "mixed-shuffled", "one-different", "one-missing", "one-extra"]
-T_S_PUBKEYS = Q_S_PUBKEYS + ["renamed-same-order", "paths-swapped", "key-not-on-curve",
+             "one-extra"]
+T_PUBKEYS = Q_PUBKEYS + ["paths-swapped", "renamed-same-order", "key-not-on-curve", "btc-missing"]
+Q_S_PUBKEYS = ["same", "mixed-shuffled", "one-different", "one-missing"]
+T_S_PUBKEYS = Q_S_PUBKEYS + ["one-extra", "renamed-same-order", "paths-swapped", "key-not-on-curve",
                              "empty-object", "no-file"]
 L_ROOTS = ["right", "wrong", "malformed-hex", "none", "right-compressed", "malformed-point",
            "empty", "device-key"]
 Q_L_ROOTS = L_ROOTS[:4]
 T_L_ROOTS = L_ROOTS[:6]
 S_ROOTS = ["right", "wrong", "garbage-pem", "none", "ca-as-root", "empty-file", "url",
-           "right-key-not-selfsigned"]
+           "right-key-not-selfsigned", "right-other-hierarchy"]
 Q_S_ROOTS = S_ROOTS[:4]
 
 
@@ -113,18 +128,31 @@ def options_for(plat, cert_path, pubkeys_path, root):
     return argparse.Namespace(**d)
 
 
+def put(path, content):
+    """make the file at ``path`` hold ``content`` (None: no such file)"""
+    if content is None:
+        if os.path.exists(path):
+            os.unlink(path)
+        return
+    with open(path, "wb") as f:
+        f.write(content if isinstance(content, bytes) else content.encode())
+
+
 class C08(Check):
     id = "C08"
     level = "exploration"
     rule = ("full product of variant menus: certificate chain {genuine, each link broken once} x "
             "targets {all, each one missing} x UI message {documented header, foreign headers, other "
             "versions, other attested key} x signer/powHSM message {legacy, current} x header {ok, "
-            "foreign, other version} x length {exact,-1,+1,+32} x platform bytes x public-keys file "
-            "{same keys in other order/encoding, key different, missing, extra, renamed paths, "
-            "malformed} x root of trust {right, wrong, malformed, default}; all really signed "
-            "(secp256k1 via ecdsa, P-256/X.509 via cryptography); Ledger and SGX commands. Distinct "
-            "= (platform, oracle verdict, first failing conjunct, outcome, exception class + text "
-            "stem).")
+            "foreign, other version} x length {exact,-1,+1 with last byte 0a/'7'/ff,+2 ending 0a,"
+            "+32} x platform bytes x public-keys file {same keys in other order/encoding, key "
+            "different, missing, extra, renamed paths, malformed} x root of trust {right, wrong, "
+            "malformed, default}; boundary bytes (0,9,:,newline,00,ff) right after each textual "
+            "header and at the end of each message x lengths x keys x root; all really signed "
+            "(secp256k1 via ecdsa, P-256/X.509 via cryptography); Ledger and SGX commands; all calls "
+            "of a case in one process on the same three paths with replaced contents, plus every "
+            "ordered pair of variants per file. Distinct = (platform, oracle verdict, first failing "
+            "conjunct, outcome, exception class + text stem).")
     assumptions = [
         "'expected headers' = HSM:UI:5.4, POWHSM:5.4:: (docs/attestation.md) and HSM:SIGNER:5.3 for "
         "the legacy format (only source: upstream test); other version digits, platform ids other "
@@ -133,9 +161,13 @@ class C08(Check):
         "'in path order' = lexicographic order of the UTF-8 path strings (docs/attestation.md)",
         "any exception leaving do_verify_attestation counts as 'ends in an error' (adm_*.py turn "
         "every exception into a non-zero exit code)",
-        "field values are seeded, one value per field, all distinct",
+        "field values are seeded, one value per field, all distinct; boundary values replace the "
+        "first/last byte of a field; key sets whose hash starts/ends with a given byte are found by "
+        "search over the last wallet key",
         "requests.get is replaced by a function that raises: a URL root is an error case",
         "X.509 validity is evaluated at a fixed clock (admin.certificate_v2.datetime replaced)",
+        "state kept between calls is observed only within one process and one case (the same three "
+        "paths); the verdict of a call must equal the verdict of the same call made alone",
     ]
     trusted_base = ["ecdsa (secp256k1 signing of the version-1 hierarchy)",
                     "cryptography/OpenSSL (P-256 signing, X.509 generation)",
@@ -156,6 +188,8 @@ class C08(Check):
         t = self.thorough
         self.m_ui = T_UI if t else Q_UI
         self.m_sh = T_SIGNER_HEADERS if t else Q_SIGNER_HEADERS
+        self.m_len = T_LENGTHS if t else Q_LENGTHS
+        self.m_elen = list(LENGTHS) if t else E_LENGTHS
         self.m_plat = ({"ledger": list(PLATFORMS), "sgx": list(PLATFORMS)} if t else Q_PLATFORMS)
         self.m_lt = T_L_TARGETS if t else Q_L_TARGETS
         self.m_st = S_TARGETS if t else Q_S_TARGETS
@@ -165,7 +199,8 @@ class C08(Check):
         self.m_sroots = S_ROOTS if t else Q_S_ROOTS
         self.lg = LedgerGen(Rng("c08-ledger"))
         self.sg = SgxGen(Rng("c08-sgx"))
-        self.pkv = pubkeys_variants(self.lg)
+        self.keysets = self.lg.edge_keysets(Rng("c08-keysets"), EDGE_BYTES)
+        self.pkvs = {"base": pubkeys_variants(self.lg)}
         self.m_lpk = T_PUBKEYS if t else Q_PUBKEYS
         self.m_spk = T_S_PUBKEYS if t else Q_S_PUBKEYS
         if k1.parse_pub(b"\x04" + bytes([0x11]) * 64) is not None:
@@ -183,7 +218,6 @@ class C08(Check):
                 raise HarnessError("generator/reference disagree on chain variant %s: %r" % (ch, got))
             if self.lg.reference_chain_ok(cert, "ui", self.lg.other_root.pub65):
                 raise HarnessError("chain valid under the wrong root")
-        # files shared by all workers
         base = "/dev/shm" if os.path.isdir("/dev/shm") else None
         self.dir = tempfile.mkdtemp(prefix="verif-c08-", dir=base)
         owner = os.getpid()
@@ -192,22 +226,11 @@ class C08(Check):
             if os.getpid() == owner:
                 shutil.rmtree(d, ignore_errors=True)
         atexit.register(cleanup)
-        self.pk_paths = {}
-        for name, (text, _, _) in self.pkv.items():
-            p = os.path.join(self.dir, "pubkeys-%s.json" % name)
-            if text is not None:
-                with open(p, "w") as f:
-                    f.write(text)
-            self.pk_paths[name] = p
-        self.sroots = {}
-        for name, (content, kind) in self.sg.roots().items():
-            p = os.path.join(self.dir, "root-%s.pem" % name)
-            with open(p, "wb") as f:
-                f.write(content)
-            self.sroots[name] = (p, kind)
-        self.sroots["none"] = (None, "none")
-        self.sroots["url"] = ("https://certificates.example.invalid/root.pem", "url")
-        self.sroots["no-such-file"] = (os.path.join(self.dir, "absent.pem"), "url")
+        # SGX roots of trust: name -> (what goes into the file | None, kind, hierarchy)
+        self.sroots = {n: (c, k, "h") for n, (c, k) in self.sg.roots().items()}
+        self.sroots["right-other-hierarchy"] = (S.pem(self.sg.other.root_der), "right", "other")
+        self.sroots["none"] = (None, "none", "h")
+        self.sroots["url"] = (None, "url", "h")
         lg = self.lg
         self.lroots = {
             "right": (lg.issuer.pub65.hex(), True), "right-compressed": (lg.issuer.pub33.hex(), True),
@@ -215,7 +238,25 @@ class C08(Check):
             "malformed-hex": ("zz" + lg.issuer.pub65.hex()[2:], False),
             "malformed-point": ("04" + "11" * 64, False), "empty": ("", False), "none": (None, False),
         }
-        self._written = {}
+        self._built = {}
+        self._keyinfo = {}
+        self._compressed = {}
+        self._serial = 0
+
+    def pkv(self, keyset):
+        if keyset not in self.pkvs:
+            self.pkvs[keyset] = pubkeys_variants(self.lg, self.keysets[keyset][0])
+        return self.pkvs[keyset]
+
+    def keyinfo(self, v):
+        """-> (key map | None, open?, reference keys hash | None, compressed BTC key | None)"""
+        k = (v.get("keyset", "base"), v["pubkeys"])
+        if k not in self._keyinfo:
+            text, keymap, is_open = self.pkv(k[0])[k[1]]
+            h = L.pubkeys_hash(keymap) if keymap else None
+            btc = k1.compressed(keymap[L.UI_PATH]) if keymap and L.UI_PATH in keymap else None
+            self._keyinfo[k] = (keymap, is_open, h, btc)
+        return self._keyinfo[k]
 
     def bounds(self):
         return {"ledger": {"chains": len(self.m_lc), "targets": len(self.m_lt), "ui": len(self.m_ui),
@@ -224,22 +265,24 @@ class C08(Check):
                 "sgx": {"chains": len(self.m_sc), "targets": len(self.m_st),
                         "messages": len(self.signer_variants("sgx")),
                         "pubkeys_files": len(self.m_spk), "roots": len(self.m_sroots)},
-                "product": "complete"}
+                "boundary_bytes": ["%02x" % b for b in EDGE_BYTES],
+                "keysets": len(self.keysets), "product": "complete",
+                "histories": "all calls of a case on the same paths; all ordered pairs per file"}
 
     def alphabets(self):
         return {"ledger_chain": self.m_lc, "ledger_targets": self.m_lt, "ui": self.m_ui,
-                "signer_headers": self.m_sh, "lengths": LENGTHS, "platform_bytes": self.m_plat,
+                "signer_headers": self.m_sh, "lengths": self.m_len, "platform_bytes": self.m_plat,
                 "pubkeys_ledger": self.m_lpk, "pubkeys_sgx": self.m_spk,
                 "roots_ledger": self.m_lroots, "roots_sgx": self.m_sroots,
-                "sgx_chain": self.m_sc, "sgx_targets": self.m_st}
+                "sgx_chain": self.m_sc, "sgx_targets": self.m_st, "keysets": sorted(self.keysets)}
 
-    def signer_variants(self, plat):
+    def signer_variants(self, plat, lengths=None, headers=None, platforms=None):
         out = []
         fmts = ["legacy", "current"] if plat == "ledger" else ["current"]
         for fmt in fmts:
-            for h in self.m_sh[fmt]:
-                for ln in LENGTHS:
-                    for p in (self.m_plat[plat] if fmt == "current" else ["-"]):
+            for h in (headers or self.m_sh)[fmt]:
+                for ln in (lengths or self.m_len):
+                    for p in ((platforms or self.m_plat[plat]) if fmt == "current" else ["-"]):
                         out.append((fmt, h, ln, p))
         return out
 
@@ -251,37 +294,107 @@ class C08(Check):
                     cs.append({"kind": "ledger", "chain": ch, "targets": tg, "ui": ui})
         for ch in self.m_sc:
             for tg in self.m_st:
-                for root in self.m_sroots:
-                    cs.append({"kind": "sgx", "chain": ch, "targets": tg, "root": root})
+                for h in self.m_sh["current"]:
+                    cs.append({"kind": "sgx", "chain": ch, "targets": tg, "header": h})
+        for ks in sorted(self.keysets):
+            for b in EDGE_BYTES:
+                cs.append({"kind": "edge", "plat": "ledger", "keyset": ks, "byte": b})
+            cs.append({"kind": "edge", "plat": "sgx", "keyset": ks})
+        for plat, dims in (("ledger", ["chain", "pubkeys", "root", "ui", "signer"]),
+                           ("sgx", ["chain", "pubkeys", "root", "signer"])):
+            for dim in dims:
+                cs.append({"kind": "pairs", "plat": plat, "dim": dim})
         cs.append({"kind": "main", "plat": "ledger"})
         cs.append({"kind": "main", "plat": "sgx"})
         cs.append({"kind": "docs-sample"})
         return cs
 
-    def replay(self, case, choices):
-        return self.run_case(case, Stats())
-
     # ------------------------------------------------------------------------------------
+    def variants(self, case):
+        """the executions of a product / boundary case, in order: (platform, variant)"""
+        k = case["kind"]
+        if k == "ledger":
+            for sv in self.signer_variants("ledger"):
+                for pk in self.m_lpk:
+                    for root in self.m_lroots:
+                        yield "ledger", {"chain": case["chain"], "targets": case["targets"],
+                                         "ui": case["ui"], "signer": list(sv), "pubkeys": pk,
+                                         "root": root}
+        elif k == "sgx":
+            for sv in self.signer_variants("sgx", headers={"current": [case["header"]]}):
+                for pk in self.m_spk:
+                    for root in self.m_sroots:
+                        yield "sgx", {"chain": case["chain"], "targets": case["targets"],
+                                      "signer": list(sv), "pubkeys": pk, "root": root}
+        elif k == "edge" and case["plat"] == "ledger":
+            b = case["byte"]
+            svs = self.signer_variants("ledger", self.m_elen, {"legacy": ["ok"], "current": ["ok"]},
+                                       ["led"])
+            for sv in svs:
+                for ts in ([None] if sv[0] == "legacy" else [None] + EDGE_BYTES):
+                    for pk in ("same", "one-different"):
+                        for root in ("right", "wrong"):
+                            yield "ledger", {"chain": "genuine", "targets": "both",
+                                             "ui": "edge-%02x" % b, "signer": list(sv),
+                                             "pubkeys": pk, "root": root,
+                                             "keyset": case["keyset"], "ts": ts}
+        elif k == "edge":
+            for sv in self.signer_variants("sgx", self.m_elen, {"current": ["ok"]}, ["sgx"]):
+                for ts in [None] + EDGE_BYTES:
+                    for pk in ("same", "one-different"):
+                        for root in ("right", "wrong"):
+                            yield "sgx", {"chain": "genuine", "targets": "quote", "signer": list(sv),
+                                          "pubkeys": pk, "root": root, "keyset": case["keyset"],
+                                          "ts": ts}
+
+    def base_variant(self, plat):
+        if plat == "ledger":
+            return {"chain": "genuine", "targets": "both", "ui": "exact",
+                    "signer": ["current", "ok", "0", "led"], "pubkeys": "same", "root": "right"}
+        return {"chain": "genuine", "targets": "quote", "signer": ["current", "ok", "0", "sgx"],
+                "pubkeys": "same", "root": "right"}
+
+    def pair_values(self, plat, dim):
+        if dim == "chain":
+            return list(self.m_lc if plat == "ledger" else self.m_sc)
+        if dim == "pubkeys":
+            vals = list(self.m_lpk if plat == "ledger" else self.m_spk)
+            return vals + [x for x in ("no-file",) if x not in vals]
+        if dim == "root":
+            return list(L_ROOTS if plat == "ledger" else S_ROOTS)
+        if dim == "ui":
+            return list(self.m_ui) + ["edge-30", "edge-0a"]
+        fmts = ["legacy", "current"] if plat == "ledger" else ["current"]
+        own = "led" if plat == "ledger" else "sgx"
+        return [[f, "ok", ln, own if f == "current" else "-"] for f in fmts
+                for ln in ("0", "-1", "+1:0a", "+32")]
+
     def run_case(self, case, stats):
         vs = []
         k = case["kind"]
         if k == "one":
             self.execute(case["plat"], case["v"], stats, vs, via_main=case.get("via_main", False))
-        elif k == "ledger":
-            self.forget_files()
-            for sv in self.signer_variants("ledger"):
-                for pk in self.m_lpk:
-                    for root in self.m_lroots:
-                        v = {"chain": case["chain"], "targets": case["targets"], "ui": case["ui"],
-                             "signer": list(sv), "pubkeys": pk, "root": root}
-                        self.execute("ledger", v, stats, vs)
-        elif k == "sgx":
-            self.forget_files()
-            for sv in self.signer_variants("sgx"):
-                for pk in self.m_spk:
-                    v = {"chain": case["chain"], "targets": case["targets"], "signer": list(sv),
-                         "pubkeys": pk, "root": case["root"]}
-                    self.execute("sgx", v, stats, vs)
+        elif k in ("ledger", "sgx", "edge", "prefix"):
+            inner = case["case"] if k == "prefix" else case
+            shared = self.fresh_paths()
+            self._built = {}
+            n = 0
+            for plat, v in self.variants(inner):
+                n += 1
+                self.execute(plat, v, stats, vs, shared=shared, origin=(inner, n))
+                if k == "prefix" and n >= case["upto"]:
+                    break
+            self.drop_paths(shared)
+            self._built = {}
+        elif k == "pairs":
+            plat, dim = case["plat"], case["dim"]
+            vals = self.pair_values(plat, dim)
+            for a in vals:
+                for b in vals:
+                    if a != b:
+                        self.run_pair(plat, dim, a, b, stats, vs)
+        elif k == "pair":
+            self.run_pair(case["plat"], case["dim"], case["a"], case["b"], stats, vs)
         elif k == "main":
             for v in self.main_sample(case["plat"]):
                 self.execute(case["plat"], v, stats, vs, via_main=True)
@@ -289,19 +402,32 @@ class C08(Check):
             self.docs_sample(stats, vs)
         return vs
 
+    def run_pair(self, plat, dim, a, b, stats, vs):
+        """two calls in one process naming the same paths: variant a, then variant b"""
+        shared = self.fresh_paths()
+        found = []
+        for val in (a, b):
+            v = self.base_variant(plat)
+            v[dim] = val
+            found = self.judge(plat, v, stats, False, shared)
+        self.drop_paths(shared)
+        # the first call is an ordinary single call (covered by the product); the second one
+        # must come out as if it were made alone
+        for suffix, observed, expected, clause in found:
+            vs.append(Violation("C08", "C08:%s:second-call-on-same-paths:%s:%s" % (plat, dim, suffix),
+                                {"kind": "pair", "plat": plat, "dim": dim, "a": a, "b": b}, None,
+                                observed, expected, clause))
+
     def main_sample(self, plat):
         """genuine + every single departure from it, through adm_*.main()"""
+        base = self.base_variant(plat)
         if plat == "ledger":
-            base = {"chain": "genuine", "targets": "both", "ui": "exact",
-                    "signer": ["current", "ok", 0, "led"], "pubkeys": "same", "root": "right"}
             alts = {"chain": self.m_lc[1:], "targets": self.m_lt[1:], "ui": self.m_ui[1:],
                     "pubkeys": self.m_lpk[1:], "root": self.m_lroots[1:]}
             if self.thorough:
                 alts = {"chain": L_CHAINS[1:], "targets": L_TARGETS[1:], "ui": list(UI_VARIANTS)[1:],
-                        "pubkeys": list(self.pkv)[1:], "root": L_ROOTS[1:]}
+                        "pubkeys": list(self.pkv("base"))[1:], "root": L_ROOTS[1:]}
         else:
-            base = {"chain": "genuine", "targets": "quote", "signer": ["current", "ok", 0, "sgx"],
-                    "pubkeys": "same", "root": "right"}
             alts = {"chain": self.m_sc[1:], "targets": self.m_st[1:], "pubkeys": self.m_spk[1:],
                     "root": self.m_sroots[1:]}
         out = [dict(base)]
@@ -321,76 +447,80 @@ class C08(Check):
             out.append(v)
         return out
 
-    # -- building one input ------------------------------------------------------------------
-    def write_once(self, name, text):
-        p = self._written.get(name)
-        if p is None:
-            p = os.path.join(self.dir, "%d-%s.json" % (os.getpid(), name))
-            with open(p, "w") as f:
-                f.write(text)
-            self._written[name] = p
-        return p
+    # -- files ---------------------------------------------------------------------------------
+    def fresh_paths(self):
+        self._serial += 1
+        stem = os.path.join(self.dir, "%d-%d-" % (os.getpid(), self._serial))
+        return {"cert": stem + "attestation.json", "pk": stem + "pubkeys.json",
+                "root": stem + "root.pem"}
 
-    def forget_files(self):
-        for name, p in self._written.items():
-            if isinstance(p, str) and p.startswith(self.dir):
-                try:
-                    os.unlink(p)
-                except OSError:
-                    pass
-        self._written = {}
+    def drop_paths(self, paths):
+        for p in paths.values():
+            if os.path.exists(p):
+                os.unlink(p)
+
+    # -- building one input ------------------------------------------------------------------
+    def timestamp_for(self, base, ts):
+        return base if ts is None else (base & ~0xff) | ts
 
     def build_ledger(self, v):
         lg = self.lg
         hdr, key, lenmod, ui_class = UI_VARIANTS[v["ui"]]
-        ui_msg = lg.ui_msg(hdr, key, lenmod)
-        fmt, hname, ln, plat = v["signer"]
+        ud = it = None
+        if v["ui"].startswith("edge-"):
+            b = int(v["ui"][5:], 16)
+            ud = bytes([b]) + lg.ud_ui[1:]
+            it = (lg.iteration & 0xff00) | b
+        ui_msg = lg.ui_msg(hdr, key, lenmod, ud, it)
+        fmt, hname, lname, plat = v["signer"]
         shdr, s_class = SIGNER_HEADERS[fmt][hname]
-        sg_msg = lg.signer_msg(fmt, shdr, ln, PLATFORMS.get(plat, b"led"))
-        name = "L-%s-%s-%s-%s-%s-%d-%s" % (v["chain"], v["targets"], v["ui"], fmt, hname, ln, plat)
-        if name not in self._written:
+        ks = v.get("keyset", "base")
+        lenmod, fill = LENGTHS[lname]
+        sg_msg = lg.signer_msg(fmt, shdr, lenmod, PLATFORMS.get(plat, b"led"),
+                               self.keysets[ks][1], fill, self.timestamp_for(lg.timestamp, v.get("ts")))
+        name = ("L", v["chain"], v["targets"], v["ui"], fmt, hname, lname, plat, ks, v.get("ts"))
+        if name not in self._built:
             cert = lg.certificate(v["chain"], v["targets"], ui_msg, sg_msg)
-            self.write_once(name, json.dumps(cert, indent=2) + "\n")
-        return self._written[name], ui_msg, sg_msg, ui_class, s_class, shdr
+            self._built[name] = json.dumps(cert, indent=2) + "\n"
+        return self._built[name], ui_msg, sg_msg, ui_class, s_class, shdr
 
     def build_sgx(self, v):
         sg = self.sg
-        fmt, hname, ln, plat = v["signer"]
+        fmt, hname, lname, plat = v["signer"]
         shdr, s_class = SIGNER_HEADERS["current"][hname]
-        msg = sg.message(shdr, ln, PLATFORMS[plat], self.lg.keys_hash)
-        name = "S-%s-%s-%s-%d-%s" % (v["chain"], v["targets"], hname, ln, plat)
-        key = "quote:" + name
-        if name not in self._written:
-            cert, quote = sg.certificate(v["chain"], v["targets"], msg)
-            self.write_once(name, json.dumps(cert, indent=2) + "\n")
-            self._written[key] = quote
-        return self._written[name], msg, self._written[key], s_class, shdr
+        ks = v.get("keyset", "base")
+        lenmod, fill = LENGTHS[lname]
+        msg = sg.message(shdr, lenmod, PLATFORMS[plat], self.keysets[ks][1], fill,
+                         self.timestamp_for(sg.timestamp, v.get("ts")))
+        hier = self.sroots[v["root"]][2]
+        name = ("S", v["chain"], v["targets"], hname, lname, plat, ks, v.get("ts"), hier)
+        if name not in self._built:
+            gen = sg if hier == "h" else self.other_sgx()
+            cert, quote = gen.certificate(v["chain"], v["targets"], msg)
+            self._built[name] = (json.dumps(cert, indent=2) + "\n", quote)
+        text, quote = self._built[name]
+        return text, msg, quote, s_class, shdr
+
+    def other_sgx(self):
+        """a second complete genuine platform under the other root (same message fields)"""
+        if not hasattr(self, "_other_sgx"):
+            sg = self.sg
+            o = SgxGen(Rng("c08-sgx-other"), hierarchy=sg.other)
+            o.ud, o.best_block, o.last_tx, o.timestamp, o.filler = \
+                sg.ud, sg.best_block, sg.last_tx, sg.timestamp, sg.filler
+            self._other_sgx = o
+        return self._other_sgx
 
     # -- reference predicate ------------------------------------------------------------------
-    def keys_conjuncts(self, v, msg_hash, need_btc):
-        """-> (failing conjunct | None, open?) for the public-keys file part."""
-        text, keymap, is_open = self.pkv[v["pubkeys"]]
-        if keymap is None or len(keymap) == 0:
-            return "pubkeys-file-unusable", False
-        if need_btc and L.UI_PATH not in keymap:
-            return ("btc-path-missing", False) if not is_open else (None, True)
-        h = L.pubkeys_hash(keymap)
-        if h is None:
-            return "pubkeys-file-unusable", False
-        if msg_hash is not None and h != msg_hash:
-            return "keys-hash", False
-        return None, is_open
-
     def oracle_ledger(self, v, ui_msg, sg_msg, ui_class, s_class, shdr):
-        """-> (verdict ok|err|open, first failing conjunct)"""
-        lg = self.lg
+        """-> (verdict ok|err|open, first failing conjunct, all)"""
         opens = []
         root_hex, root_right = self.lroots[v["root"]]
-        text, keymap, pk_open = self.pkv[v["pubkeys"]]
+        keymap, pk_open, file_hash, btc = self.keyinfo(v)
         fails = []
-        if root_hex is not None and (k1.parse_pub(_unhex(root_hex)) is None):
+        if root_hex is not None and v["root"].startswith(("malformed", "empty")):
             fails.append("root-malformed")
-        if keymap is None or len(keymap) == 0 or L.pubkeys_hash(keymap) is None:
+        if keymap is None or len(keymap) == 0 or file_hash is None:
             fails.append("pubkeys-file-unusable")
         elif L.UI_PATH not in keymap:
             if pk_open:
@@ -408,23 +538,23 @@ class C08(Check):
             opens.append("ui-variant")
         if keymap and L.UI_PATH in keymap and ui_class != "foreign":
             a, b = L.offsets(len(L.UI_HEADER), L.UI_FIELDS)["public_key"]
-            if ui_msg[a:b] != k1.compressed(keymap[L.UI_PATH]):
+            if ui_msg[a:b] != btc:
                 fails.append("ui-key")
         if tg in ("no-signer", "signer-untargeted"):
             fails.append("signer-target-missing")
         elif not root_right or ch in ("device-link", "attestation-link", "signer-link",
                                       "signer-foreign-tweak"):
             fails.append("signer-chain")
-        fmt, hname, ln, plat = v["signer"]
+        fmt, hname, lname, plat = v["signer"]
         if s_class == "foreign":
             fails.append("signer-header")
         elif s_class == "open":
             opens.append("signer-version")
         fields = L.LEGACY_FIELDS if fmt == "legacy" else L.POWHSM_FIELDS
-        if ln != 0:
+        if LENGTHS[lname][0] != 0:
             fails.append("signer-length")
-        elif keymap and L.pubkeys_hash(keymap) is not None:
-            if L.field(sg_msg, len(shdr), fields, "public_keys_hash") != L.pubkeys_hash(keymap):
+        elif keymap and file_hash is not None:
+            if L.field(sg_msg, len(shdr), fields, "public_keys_hash") != file_hash:
                 fails.append("keys-hash")
         if fmt == "current" and plat != "led":
             opens.append("platform")
@@ -436,29 +566,29 @@ class C08(Check):
 
     def oracle_sgx(self, v, msg, s_class, shdr):
         fails, opens = [], []
-        _, kind = self.sroots[v["root"]]
+        _, kind, hier = self.sroots[v["root"]]
         if kind in ("malformed", "none", "url"):
             fails.append("root-" + kind)
         elif kind == "wrong":
             fails.append("chain-root")
         elif kind == "open":
             opens.append("root-not-selfsigned")
-        text, keymap, pk_open = self.pkv[v["pubkeys"]]
-        if keymap is None or len(keymap) == 0 or L.pubkeys_hash(keymap) is None:
+        keymap, pk_open, file_hash, _ = self.keyinfo(v)
+        if keymap is None or len(keymap) == 0 or file_hash is None:
             fails.append("pubkeys-file-unusable")
         if v["targets"] != "quote":
             fails.append("quote-target-missing")
         if v["chain"] != "genuine":
             fails.append("chain:" + v["chain"])
-        fmt, hname, ln, plat = v["signer"]
+        fmt, hname, lname, plat = v["signer"]
         if s_class == "foreign":
             fails.append("powhsm-header")
         elif s_class == "open":
             opens.append("powhsm-version")
-        if ln != 0:
+        if LENGTHS[lname][0] != 0:
             fails.append("powhsm-length")
-        elif keymap and L.pubkeys_hash(keymap) is not None:
-            if L.field(msg, len(shdr), L.POWHSM_FIELDS, "public_keys_hash") != L.pubkeys_hash(keymap):
+        elif keymap and file_hash is not None:
+            if L.field(msg, len(shdr), L.POWHSM_FIELDS, "public_keys_hash") != file_hash:
                 fails.append("keys-hash")
         if plat != "sgx":
             opens.append("platform")
@@ -469,19 +599,48 @@ class C08(Check):
         return "ok", None, []
 
     # -- one execution -----------------------------------------------------------------------
-    def execute(self, plat, v, stats, vs, via_main=False):
+    def execute(self, plat, v, stats, vs, via_main=False, shared=None, origin=None):
+        found = self.judge(plat, v, stats, via_main, shared)
+        if not found:
+            return
+        case = {"kind": "one", "plat": plat, "v": v, "via_main": via_main}
+        alone = set()
+        if shared is not None:
+            # does it also happen when this call is the only one (fresh paths)?
+            alone = {f[0] for f in self.judge(plat, v, Stats(), via_main, None)}
+        for suffix, observed, expected, clause in found:
+            if shared is None or suffix in alone:
+                vs.append(Violation("C08", "C08:%s:%s" % (plat, suffix), case, None, observed,
+                                    expected, clause))
+            else:
+                vs.append(Violation(
+                    "C08", "C08:%s:depends-on-earlier-calls:%s" % (plat, suffix),
+                    {"kind": "prefix", "case": origin[0], "upto": origin[1], "plat": plat, "v": v},
+                    None, dict(observed, note="the same call made alone comes out as expected"),
+                    expected, "verdict and printed values are a function of the current triple"))
+
+    def judge(self, plat, v, stats, via_main, shared):
+        """run one call; -> list of (key suffix, observed, expected, clause)"""
         stats.evaluations += 1
+        paths = shared or self.fresh_paths()
         if plat == "ledger":
-            cert_path, ui_msg, sg_msg, ui_class, s_class, shdr = self.build_ledger(v)
+            cert_text, ui_msg, sg_msg, ui_class, s_class, shdr = self.build_ledger(v)
             verdict, reason, allr = self.oracle_ledger(v, ui_msg, sg_msg, ui_class, s_class, shdr)
             root = self.lroots[v["root"]][0]
             mod = self.VL
         else:
-            cert_path, sg_msg, quote, s_class, shdr = self.build_sgx(v)
+            cert_text, sg_msg, quote, s_class, shdr = self.build_sgx(v)
             verdict, reason, allr = self.oracle_sgx(v, sg_msg, s_class, shdr)
-            root = self.sroots[v["root"]][0]
+            content, kind, _ = self.sroots[v["root"]]
+            put(paths["root"], content)
+            root = paths["root"]
+            if kind == "none":
+                root = None
+            elif kind == "url":
+                root = "https://certificates.example.invalid/root.pem"
             mod = self.VS
-        pk_path = self.pk_paths[v["pubkeys"]]
+        put(paths["cert"], cert_text)
+        put(paths["pk"], self.pkv(v.get("keyset", "base"))[v["pubkeys"]][0])
         net = _NoNetwork()
         buf = io.StringIO()
         outcome, exc_class, exc_text = "ok", None, ""
@@ -490,41 +649,38 @@ class C08(Check):
             with contextlib.redirect_stdout(buf):
                 try:
                     if via_main:
-                        self.run_main(plat, cert_path, pk_path, root)
+                        self.run_main(plat, paths["cert"], paths["pk"], root)
                     else:
-                        mod.do_verify_attestation(options_for(plat, cert_path, pk_path, root))
+                        mod.do_verify_attestation(options_for(plat, paths["cert"], paths["pk"], root))
                 except SystemExit as e:
                     if e.code not in (0, None):
                         outcome, exc_class, exc_text = "err", "exit-%s" % (e.code,), ""
                 except BaseException as e:   # noqa
                     outcome, exc_class, exc_text = "err", type(e).__name__, str(e)
+        if shared is None:
+            self.drop_paths(paths)
         if exc_class is not None and exc_class != "AdminError" and not exc_class.startswith("exit-"):
             stats.bump("non_admin_errors")
         stem = re.sub(r"[0-9a-f]{8,}|/[^ \"]+", "#", exc_text)[:48]
         stats.observe((plat, verdict, reason, outcome, exc_class, stem, via_main))
         stats.sample({"platform": plat, "variant": v, "oracle": [verdict, reason], "outcome": outcome,
                       "error": exc_text[:120]})
-        case = {"kind": "one", "plat": plat, "v": v, "via_main": via_main}
         if verdict == "open":
             stats.dont_care += 1
         if verdict == "err" and outcome == "ok":
-            vs.append(Violation("C08", "C08:%s:accepted-despite:%s" % (plat, reason), case, None,
-                                {"outcome": "finished without error", "stdout": buf.getvalue()[-1500:]},
-                                {"outcome": "error", "failing_conjuncts": allr},
-                                "finishes without error only when every conjunct holds"))
-            return
+            return [("accepted-despite:%s" % reason,
+                     {"outcome": "finished without error", "stdout": buf.getvalue()[-1500:]},
+                     {"outcome": "error", "failing_conjuncts": allr},
+                     "finishes without error only when every conjunct holds")]
         if verdict == "ok" and outcome != "ok":
-            vs.append(Violation("C08", "C08:%s:refused-well-formed:%s:%s" % (plat, exc_class, stem),
-                                case, None, {"outcome": "error", "exception": exc_class,
-                                             "text": exc_text[:600]},
-                                {"outcome": "finishes without error"},
-                                "all conjuncts hold"))
-            return
+            return [("refused-well-formed:%s:%s" % (exc_class, stem),
+                     {"outcome": "error", "exception": exc_class, "text": exc_text[:600]},
+                     {"outcome": "finishes without error"}, "all conjuncts hold")]
         if outcome != "ok":
-            return
+            return []
         # printed values == bytes at the documented offsets of the signed messages
         sections = L.parse_output(buf.getvalue())
-        text, keymap, _ = self.pkv[v["pubkeys"]]
+        text, keymap, _ = self.pkv(v.get("keyset", "base"))[v["pubkeys"]]
         bad = []
         if plat == "ledger":
             bad += self.printed_ui(sections, v, ui_msg)
@@ -538,11 +694,9 @@ class C08(Check):
                 {"Installed powHSM MRENCLAVE": rb[L.RB_MRENCLAVE[0]:L.RB_MRENCLAVE[1]].hex(),
                  "Installed powHSM MRSIGNER": rb[L.RB_MRSIGNER[0]:L.RB_MRSIGNER[1]].hex()},
                 "Installed powHSM version")
-        for label, got, want in bad:
-            vs.append(Violation("C08", "C08:%s:printed:%s" % (plat, label), case, None,
-                                {"printed": got, "stdout": buf.getvalue()[-1500:]},
-                                {"bytes_at_documented_offset": want},
-                                "printed values are those at the documented offsets"))
+        return [("printed:%s" % label, {"printed": got, "stdout": buf.getvalue()[-1500:]},
+                 {"bytes_at_documented_offset": want},
+                 "printed values are those at the documented offsets") for label, got, want in bad]
 
     def run_main(self, plat, cert_path, pk_path, root):
         import importlib
@@ -584,7 +738,9 @@ class C08(Check):
         vpos = shdr.index(b":", 4) + 1 if fmt == "legacy" else len(b"POWHSM:")
         want[version_label] = shdr[vpos:vpos + 3].decode("latin-1")
         for p, raw in keymap.items():
-            want[p] = k1.compressed(raw).hex()
+            if raw not in self._compressed:
+                self._compressed[raw] = k1.compressed(raw).hex()
+            want[p] = self._compressed[raw]
         extra = {"Platform": None, "UD value": None, "Best block": None,
                  "Last transaction signed": None, "Timestamp": None}
         if fmt == "current":
@@ -608,31 +764,25 @@ class C08(Check):
     # -- the document's own version-1 sample under the default root -------------------------------
     def docs_sample(self, stats, vs):
         v1, _, _, _ = L.doc_samples()
-        p = self.write_once("docs-v1", json.dumps(v1))
-        for root in (None,):
-            stats.evaluations += 1
-            buf = io.StringIO()
-            outcome = "ok"
-            with contextlib.redirect_stdout(buf):
-                try:
-                    self.VL.do_verify_attestation(
-                        options_for("ledger", p, self.pk_paths["same"], root))
-                except BaseException as e:   # noqa
-                    outcome = type(e).__name__
-            stats.observe(("docs-sample", outcome))
-            # its signer link does not verify under Ledger's key (reference walk) and the keys
-            # are not the operator's: must end in an error
-            if outcome == "ok":
-                vs.append(Violation("C08", "C08:ledger:accepted-despite:docs-sample-default-root",
-                                    {"kind": "docs-sample"}, None, {"outcome": "ok"},
-                                    {"outcome": "error"}, "default root"))
-
-
-def _unhex(s):
-    try:
-        return bytes.fromhex(s)
-    except ValueError:
-        return b""
+        paths = self.fresh_paths()
+        put(paths["cert"], json.dumps(v1))
+        put(paths["pk"], self.pkv("base")["same"][0])
+        stats.evaluations += 1
+        buf = io.StringIO()
+        outcome = "ok"
+        with contextlib.redirect_stdout(buf):
+            try:
+                self.VL.do_verify_attestation(options_for("ledger", paths["cert"], paths["pk"], None))
+            except BaseException as e:   # noqa
+                outcome = type(e).__name__
+        self.drop_paths(paths)
+        stats.observe(("docs-sample", outcome))
+        # its signer link does not verify under Ledger's key (reference walk) and the keys
+        # are not the operator's: must end in an error
+        if outcome == "ok":
+            vs.append(Violation("C08", "C08:ledger:accepted-despite:docs-sample-default-root",
+                                {"kind": "docs-sample"}, None, {"outcome": "ok"},
+                                {"outcome": "error"}, "default root"))
 
 
 CHECK = C08
